@@ -9,6 +9,7 @@ import (
 	"time"
 
 	"github.com/ory/fosite"
+	"github.com/ory/fosite/compose"
 	"github.com/ory/fosite/zz_verif_h/world"
 	"github.com/ory/fosite/zz_verif_h/zz"
 )
@@ -330,4 +331,55 @@ func ZZ_C02_hybrid_binding() {
 	zz.Assert(at1 == at0 && rt1 == rt0, "a refused attempt issues nothing")
 	_, err2 := wd.TokenAs("c1", world.Secret1, url.Values{"grant_type": {"authorization_code"}, "code": {code}, "redirect_uri": {cb1}})
 	zz.Assert(err2 == nil, "a refused attempt leaves the hybrid code usable by its rightful holder")
+}
+
+// ZZ_C02_par_binding: the code comes from a PUSHED authorization request; the continuation at the
+// authorization endpoint may carry a conflicting front-channel redirect_uri (another registered URI of the
+// client). The authorization request is the pushed one: the code is redeemable only with its redirect_uri.
+func ZZ_C02_par_binding() {
+	wd := world.New(world.Options{Extra: []compose.Factory{compose.PushedAuthorizeHandlerFactory}})
+	wd.Store.Clients["c1"].(*fosite.DefaultClient).RedirectURIs = []string{cb1, cb1b}
+	push := url.Values{
+		"client_id": {"c1"}, "client_secret": {world.Secret1}, "response_type": {"code"}, "redirect_uri": {cb1},
+		"scope": {"offline photos"}, "state": {"state-0123456789"},
+	}
+	par, err := wd.Provider.NewPushedAuthorizeRequest(wd.Ctx, world.Post(push))
+	zz.Assume(err == nil)
+	presp, err := wd.Provider.NewPushedAuthorizeResponse(wd.Ctx, par, world.NewSession("peter"))
+	zz.Assume(err == nil)
+	front := url.Values{"client_id": {"c1"}, "request_uri": {presp.GetRequestURI()}}
+	if zz.Choice("front-redirect", 2) == 1 {
+		front.Set("redirect_uri", cb1b)
+		zz.Cover("par:conflicting-front-channel-redirect", true)
+	}
+	ar, err := wd.Provider.NewAuthorizeRequest(wd.Ctx, world.Get(front))
+	zz.Assume(err == nil)
+	ar.GrantScope("offline")
+	ar.GrantScope("photos")
+	resp, err := wd.Provider.NewAuthorizeResponse(wd.Ctx, ar, world.NewSession("peter"))
+	zz.Assume(err == nil)
+	code := resp.GetCode()
+	zz.Assume(code != "")
+
+	rp := zz.String("redirect", 24)
+	tf := url.Values{"grant_type": {"authorization_code"}, "code": {code}}
+	if zz.Choice("redirect-parameter", 2) == 1 {
+		tf.Set("redirect_uri", rp)
+	} else {
+		rp = "" // parameter absent
+	}
+	at0, rt0 := stored(wd)
+	r, err := wd.TokenAs("c1", world.Secret1, tf)
+	zz.Observe("attempt.err", world.ErrName(err))
+	if err == nil {
+		zz.Cover("par:redeemed", true)
+		zz.Assert(rp == cb1, "PAR code redeemed only with the redirect_uri of the pushed authorization request")
+		zz.Assert(r.GetAccessToken() != "", "tokens issued")
+		return
+	}
+	zz.Cover("par:refused", true)
+	at1, rt1 := stored(wd)
+	zz.Assert(at1 == at0 && rt1 == rt0, "a refused attempt issues nothing")
+	_, err2 := wd.TokenAs("c1", world.Secret1, url.Values{"grant_type": {"authorization_code"}, "code": {code}, "redirect_uri": {cb1}})
+	zz.Assert(err2 == nil, "a refused attempt leaves the PAR code usable by its rightful holder")
 }
